@@ -79,9 +79,14 @@ pub fn pid_value(p: &ExternalPid) -> Value {
     crate::terms::denote_pid(p)
 }
 
-/// Wait in real time (letting the runtime run) until `cond` holds; false if it did not within `cap`.
+/// Wait (letting the runtime run) until `cond` holds; false if it did not within `cap` of real time *and* at least
+/// `MIN_WAIT_ROUNDS` rounds of letting every ready task run.  On a starved machine the rounds are slow, so the wait is
+/// measured in the progress the single-threaded runtime was given, not in wall-clock time alone.
+pub const MIN_WAIT_ROUNDS: usize = 3000;
+
 pub async fn wait_until(cap: Duration, mut cond: impl FnMut() -> bool) -> bool {
     let t0 = std::time::Instant::now();
+    let mut rounds = 0usize;
     loop {
         if cond() {
             return true;
@@ -90,7 +95,8 @@ pub async fn wait_until(cap: Duration, mut cond: impl FnMut() -> bool) -> bool {
         if cond() {
             return true;
         }
-        if t0.elapsed() > cap {
+        rounds += 1;
+        if t0.elapsed() > cap && rounds >= MIN_WAIT_ROUNDS {
             return false;
         }
         std::thread::sleep(Duration::from_micros(100));
